@@ -16,7 +16,46 @@ from gpmc.cfg import ELLS, PRJS, ELL_AF, PRJ_PAR, cm_of, uniq, fill
 warnings.simplefilter('ignore', UserWarning)   # 'ISG projection should be used with ANS ellipsoid'
 
 OFFSETS = [0.0, 1e-9, -1e-9, 1e-6, -1e-6, 0.5, -0.5, 1.0, -1.0, 3.0, -3.0, 6.0, -6.0, 10.0, -10.0,
-           20.0, -20.0, 30.0, -30.0]
+           20.0, -20.0, 30.0, -30.0,
+           # between 'on the central meridian' and a micro-degree: 1-2-5 steps (a longitude 'close to' the central meridian is
+           # not ON it: 1e-7 deg is 11 mm of easting)
+           2e-9, -5e-9, 1e-8, -2e-8, 5e-8, -1e-7, 1.5e-7, -2e-7, 5e-7]
+
+
+def lat_of_conformal(chi_deg, invf):
+    """geodetic latitude whose conformal latitude is chi (bisection on the closed form, exact to the last bits)"""
+    f = 1.0 / invf
+    e = math.sqrt(f * (2.0 - f))
+    chi = math.radians(chi_deg)
+
+    def conf(phi):
+        s = math.sin(phi)
+        return math.atan(math.sinh(math.asinh(math.tan(phi)) - e * math.atanh(e * s)))
+    lo, hi = chi, min(math.pi / 2 - 1e-12, chi + 0.01) if chi >= 0 else chi
+    if chi < 0:
+        return -lat_of_conformal(-chi_deg, invf)
+    for _ in range(200):
+        mid = 0.5 * (lo + hi)
+        if conf(mid) < chi:
+            lo = mid
+        else:
+            hi = mid
+    return math.degrees(0.5 * (lo + hi))
+
+
+def special_rows(ell, prj, zones):
+    """positions whose Gauss-Schreiber ratio xi' is EXACTLY one of the zeros of cos(2 r xi') (r = 1, 2, 3: 45; 22.5, 67.5; 15, 75 deg),
+    on and off the central meridian: the leading term of a series in cos(2 r xi') vanishes there while the later terms do not"""
+    a, invf = ELL_AF[ell]
+    out = []
+    for t in (15.0, 22.5, 45.0, 67.5, 75.0):
+        for dl in (0.0, 0.5, 3.0, 10.0):
+            chi = math.degrees(math.atan(math.tan(math.radians(t)) * math.cos(math.radians(dl))))
+            lat = lat_of_conformal(chi, invf)
+            for sg in (1.0, -1.0):
+                if -80.0 <= sg * lat <= 84.0:
+                    out.append((sg * lat, dl))
+    return out
 
 
 def auto_lons(prj, tier, seed):
@@ -74,6 +113,15 @@ def gen_rows(tier, seed, configs=None, kinds=True, lat_fn=None):
             lons = uniq([cm + d if -180.0 <= cm + d <= 180.0 else ((cm + d + 180.0) % 360.0) - 180.0 for d in OFFSETS])
             for lat in lats:
                 yield {'ell': ell, 'prj': prj, 'zone': z, 'lat': lat, 'lons': lons, 'kind': 'float'}
+        # the parallels on which the first terms of the series in cos(2 r xi') vanish (per ellipsoid), explicit zone and automatic
+        if prj not in ('isg2',):
+            zs = explicit_zones(prj, 'quick')[:2] if prj != 'isg' else [561]
+            for z in zs:
+                cm = cm_of(prj, z)
+                for lat, dl in special_rows(ell, prj, zs):
+                    lons = [x for x in uniq([cm + dl, cm - dl]) if -180.0 <= x <= 180.0]
+                    if lons:
+                        yield {'ell': ell, 'prj': prj, 'zone': z, 'lat': lat, 'lons': lons, 'kind': 'float'}
     if kinds:
         # angle-class inputs: a sub-lattice through every class (result must equal the float call at obj.dec())
         for ell, prj, lons in (('grs80', 'utm', [-179.25, -71.5, -0.45, 0.0, 0.3, 133.882]), ('ans', 'isg', [151.2, 141.000001])):
